@@ -61,6 +61,8 @@ def _check_result(c, api, res, factors, single, tags):
 
 
 class BasisDecomposition(probe.Contract):
+    freeze = True  # the oracle sees the arguments as they were at call entry; arrays / lists rewritten by the call are reported
+    input_prop = P
     api = 'transform.basis_decomposition'
 
     def post(self, st, res, args, kwargs):
@@ -79,6 +81,8 @@ class BasisDecomposition(probe.Contract):
 
 
 class CoordinateMajor(probe.Contract):
+    freeze = True  # the oracle sees the arguments as they were at call entry; arrays / lists rewritten by the call are reported
+    input_prop = P
     api = 'transform.coordinate_major'
 
     def post(self, st, res, args, kwargs):
@@ -96,6 +100,8 @@ class CoordinateMajor(probe.Contract):
 
 
 class FunctionMajor(probe.Contract):
+    freeze = True  # the oracle sees the arguments as they were at call entry; arrays / lists rewritten by the call are reported
+    input_prop = P
     api = 'transform.function_major'
 
     def post(self, st, res, args, kwargs):
@@ -119,6 +125,8 @@ class FunctionMajor(probe.Contract):
 
 
 class Gram(probe.Contract):
+    freeze = True  # the oracle sees the arguments as they were at call entry; arrays / lists rewritten by the call are reported
+    input_prop = P
     api = 'transform.gram'
 
     def post(self, st, res, args, kwargs):
@@ -141,6 +149,8 @@ class Gram(probe.Contract):
 
 
 class Hocur(probe.Contract):
+    freeze = True  # the oracle sees the arguments as they were at call entry; arrays / lists rewritten by the call are reported
+    input_prop = P
     api = 'transform.hocur'
 
     def pre(self, args, kwargs):
